@@ -345,24 +345,9 @@ S!(c14_step_stats_mid, 2, scan_step(74, 80, 0, false, false, true, false, true, 
 //@ harness: c03_scan2_nofilter_load props=C03 also=C07,C08,C14 tier=thorough required=no class=functional covers=1 mem=28 timeout=1200 est=120 args=-Z,restrict-vtable
 //@ bounds: all contents of the well-framed 2-packet stream with sizes (74, 80) (payloads 10 and 16 bytes; link/FEE ids of the two packets fixed, all other 122 header bytes and all payload bytes symbolic), no filter, payloads loaded, file-like reader
 S!(c03_scan2_nofilter_load, 2, scan2(74, 80, 0, false, false, true, false, false));
-//@ harness: c03_scan2_nofilter_skip_pipe props=C03 also=C07,C14 tier=thorough required=no class=functional covers=1 mem=28 timeout=1200 est=120 args=-Z,restrict-vtable
-//@ bounds: sizes (80, 64) (second payload empty), no filter, payloads skipped by read-and-discard, pipe-like reader
-S!(c03_scan2_nofilter_skip_pipe, 2, scan2(80, 64, 0, true, true, true, false, false));
 //@ harness: c03_scan2_link_second props=C03 also=C07,C08,C14 tier=thorough required=no class=functional covers=1 mem=28 timeout=1200 est=150 args=-Z,restrict-vtable
 //@ bounds: sizes (74, 80), link filter selecting only the SECOND packet (first skipped by the filter loop), payloads loaded, file-like reader: delivered offset must be the second packet's
 S!(c03_scan2_link_second, 2, scan2(74, 80, 1, false, false, false, true, false));
-//@ harness: c03_scan2_link_first props=C03 also=C07,C08,C14 tier=thorough required=no class=functional covers=1 mem=28 timeout=1200 est=150 args=-Z,restrict-vtable
-//@ bounds: sizes (74, 80), link filter selecting only the FIRST packet (trailing packet skipped), payloads loaded
-S!(c03_scan2_link_first, 2, scan2(74, 80, 1, false, false, true, false, false));
-//@ harness: c03_scan2_fee_both_skip props=C03 also=C07,C14 tier=thorough required=no class=functional covers=1 mem=28 timeout=1200 est=150 args=-Z,restrict-vtable
-//@ bounds: sizes (80, 64), FEE-id filter selecting both packets, payloads skipped by seek, file-like reader
-S!(c03_scan2_fee_both_skip, 2, scan2(80, 64, 2, true, false, true, true, false));
-//@ harness: c03_scan2_stave_none_pipe props=C03 also=C07,C14 tier=thorough required=no class=functional covers=1 mem=28 timeout=1200 est=150 args=-Z,restrict-vtable
-//@ bounds: sizes (64, 74), layer/stave filter whose value is NOT present (both packets skipped), pipe-like reader: nothing delivered, UnexpectedEof, statistics count both
-S!(c03_scan2_stave_none_pipe, 3, scan2(64, 74, 3, true, true, false, false, false));
-//@ harness: c03_scan2_stave_second_load_pipe props=C03 also=C07,C08,C14 tier=thorough required=no class=functional covers=1 mem=28 timeout=1200 est=150 args=-Z,restrict-vtable
-//@ bounds: sizes (80, 80), layer/stave filter selecting the second packet (first has the same layer but stave +32), payloads loaded, pipe-like reader
-S!(c03_scan2_stave_second_load_pipe, 2, scan2(80, 80, 3, false, true, false, true, false));
 
 //@ harness: c03_offset_range props=C03,C04 tier=quick class=functional covers=2 mem=8 timeout=600 est=40
 //@ bounds: all 2^512 headers: sanity_check_offset_next accepts exactly offset_to_next in 64..=10064
